@@ -101,6 +101,15 @@ def sumRat : List Rat → Rat
   | [] => 0
   | x :: xs => x + sumRat xs
 
+/-- one step of a running sum as CPython computes it: `acc.1` = "the running value is a `float`" (some operand so
+    far was an xsd:double / xsd:float), `acc.2` = the running value.  Once a float is involved both operands are
+    converted to binary64 and the exact sum is rounded to binary64 (`addNum`). -/
+def sumStep (acc : Bool × Rat) (n : DT × Rat × Nat) : Bool × Rat :=
+  (acc.1 || n.1.isFloating, addNum (acc.1 || n.1.isFloating) acc.2 n.2.1)
+
+/-- the running sum over the numeric arguments LEFT TO RIGHT, from the integer 0 -/
+def sumLR (ns : List (DT × Rat × Nat)) : Rat := (ns.foldl sumStep (false, 0)).2
+
 /-- the numeric ones among the argument values (before DISTINCT) -/
 def numTerms (a : AggSpec) (rows : List Row) : List Term :=
   (argVals a rows).filter (fun t => (numericOf t).isSome)
